@@ -252,6 +252,7 @@ func init() {
 			in.Close()
 			rep.Evaluations++
 		}
+		threeTokensOneTask(env, rep, "C17-outcome", 3)
 		for _, v := range rep.Violations {
 			fmt.Printf("C17CONC-VIOLATION: %s | %s | %s\n", v.Key, v.Case, strings.ReplaceAll(firstLines(v.Detail, 3), "\n", " "))
 		}
